@@ -56,14 +56,98 @@ def strip_con(t):
     return tuple(t) if len(t) == 1 else t
 
 
+def conflated_default(v, depth=0):
+    """does an object of v hold, in a field with a default, a value equal to that default but of another class"""
+    import dataclasses
+    if depth > 30:
+        return False
+    if dataclasses.is_dataclass(v) and not isinstance(v, type):
+        for f in dataclasses.fields(v):
+            x = getattr(v, f.name, None)
+            if f.default is not dataclasses.MISSING:
+                try:
+                    if x == f.default and not same_classes(x, f.default):
+                        return True
+                except Exception:
+                    pass
+            if conflated_default(x, depth + 1):
+                return True
+        return False
+    if isinstance(v, tuple) and hasattr(v, "_fields"):
+        defaults = getattr(type(v), "_field_defaults", {})
+        for n in v._fields:
+            x = getattr(v, n)
+            if n in defaults and x == defaults[n] and not same_classes(x, defaults[n]):
+                return True
+            if conflated_default(x, depth + 1):
+                return True
+        return False
+    if isinstance(v, dict):
+        return any(conflated_default(x, depth + 1) for x in v.values())
+    if isinstance(v, (list, tuple, set, frozenset)):
+        return any(conflated_default(x, depth + 1) for x in v)
+    return False
+
+
+def data_cls(t):
+    """factory.cls in apischema/deserialization: the class the datum must have, when the type fixes one"""
+    k = t[0]
+    if k in ("none", "bool", "int", "float", "str"):
+        return k
+    if k in ("coll", "tuple"):
+        return "list"
+    if k in ("map", "obj"):
+        return "dict"
+    if k == "con":
+        return data_cls(t[2])
+    if k == "union" and len(t[1]) == 1:
+        return data_cls(t[1][0])
+    return None
+
+
+def abstract_cover(t):
+    """non-array runtime classes that are instances of the abstract class the alternative is declared with"""
+    k = t[0]
+    if k == "coll":
+        return {"collection": {"dict", "str", "tuple"}, "sequence": {"str", "tuple"}}.get(t[1], set())
+    if k == "con":
+        return abstract_cover(t[2])
+    if k == "union":
+        return set().union(*[abstract_cover(a) for a in t[1]]) if t[1] else set()
+    return set()
+
+
+def runtime_tags(t, u):
+    k = t[0]
+    if k == "map":
+        return {"dict"}
+    if k == "obj":
+        return {"typeddict": {"dict"}, "namedtuple": {"tuple"}}.get(u["classes"][t[1]]["kind"], set())
+    if k == "str":
+        return {"str"}
+    if k == "lit":
+        return {"str"} if any(isinstance(v, str) for v in t[1]) else set()
+    if k == "any":
+        return {"dict", "str", "tuple"}
+    if k == "con":
+        return runtime_tags(t[2], u)
+    if k == "union":
+        return set().union(*[runtime_tags(a, u) for a in t[1]]) if t[1] else set()
+    return set()
+
+
 def unambiguous(t, u, seen=None):
     """every datum is accepted by at most one alternative of each union: needed for a union type to be bijective"""
     seen = set() if seen is None else seen
     k = t[0]
     if k == "union":
         acc = set()
-        # by-class dispatch sends an integer to the int alternative when there is one: float then only takes floats
-        has_int = any(strip_con(a) == ("int",) for a in t[1])
+        # by-class dispatch (UnionByTypeMethod: every alternative has a class, all distinct) sends an integer to the int
+        # alternative when there is one: float then only takes floats.  A Literal / Enum / Any alternative has no class:
+        # the alternatives are then tried in order and a float listed before int takes the integers
+        clss = [data_cls(a) for a in t[1]]
+        by_type = None not in clss and len(set(clss)) == len(clss)
+        has_int = by_type and any(strip_con(a) == ("int",) for a in t[1])
         for a in t[1]:
             ks = json_kinds(a, u)
             if has_int and strip_con(a) == ("float",):
@@ -71,6 +155,12 @@ def unambiguous(t, u, seen=None):
             if acc & ks:
                 return False
             acc |= ks
+        # serialization picks the first alternative whose class the value is an instance of: a dict, a str and a
+        # NamedTuple are Collections (the last two Sequences as well) although they are not JSON arrays
+        for i, a in enumerate(t[1]):
+            for j, b in enumerate(t[1]):
+                if i != j and abstract_cover(a) & runtime_tags(b, u):
+                    return False
         return all(unambiguous(a, u, seen) for a in t[1])
     if k in ("coll", "con"):
         return unambiguous(t[2], u, seen)
@@ -187,6 +277,11 @@ def run(tier):
         if counts_properties(c.t, c.u):
             R.count("excluded:property_count_constraint")
             return
+        if conflated_default(c.value):
+            # a field holding 1 where the default is True (equal for Python, another class): serialization skips it as a
+            # default and deserialization restores the default itself - an asymmetric skip
+            R.count("excluded:value_equal_to_default_of_another_class")
+            return
         if c.opts["exclude_defaults"] and any(cl.get("depreq") for cl in c.u["classes"]):
             R.count("excluded:exclude_defaults_with_dependent_required")     # an asymmetric skip
             return
@@ -253,6 +348,38 @@ def run(tier):
             return any(al(f["alias"]) in d and shadows_field(u, f["ty"], d[al(f["alias"])], al, seen + 1) for f in cl["fields"])
         return False
 
+    def set_dups_below_min(u, t, d, al, con=None, seen=0):
+        """KF-C05-set-duplicates-min-items: a datum at a set position whose items, once duplicates are merged, are fewer
+        than the minItems it satisfied as an array"""
+        k = t[0]
+        if seen > 6:
+            return False
+        if k == "con":
+            return set_dups_below_min(u, t[2], d, al, dict(con or {}, **t[1]), seen)
+        if k == "coll":
+            if not isinstance(d, list):
+                return False
+            if t[1] in ("set", "frozenset", "abstractset") and con and con.get("min_items") is not None:
+                distinct = []
+                for x in d:
+                    if not any(G.same_data(x, y) or (not isinstance(x, (list, dict)) and not isinstance(y, (list, dict)) and x == y)
+                               for y in distinct):
+                        distinct.append(x)
+                if len(distinct) < con["min_items"] <= len(d):
+                    return True
+            return any(set_dups_below_min(u, t[2], x, al, None, seen) for x in d)
+        if k == "tuple":
+            return isinstance(d, list) and any(set_dups_below_min(u, ti, x, al, None, seen) for ti, x in zip(t[1], d))
+        if k == "union":
+            return any(set_dups_below_min(u, ti, d, al, con, seen) for ti in t[1])
+        if k == "map":
+            return isinstance(d, dict) and any(set_dups_below_min(u, t[2], x, al, None, seen) for x in d.values())
+        if k == "obj" and isinstance(d, dict):
+            cl = u["classes"][t[1]]
+            return any(al(f["alias"]) in d and set_dups_below_min(u, f["ty"], d[al(f["alias"])], al, f.get("con"), seen + 1)
+                       for f in cl["fields"])
+        return False
+
     def dual(U, c):
         if c.kind != "ok" or not in_domain(c.data) or not unambiguous(c.t, c.u) or counts_properties(c.t, c.u):
             return
@@ -266,6 +393,9 @@ def run(tier):
             if c.opts["additional_properties"] and shadows_field(c.u, c.t, data_real(c.data), al) \
                     and R.known_match("typeddict-extra-shadows-field"):
                 return
+            if isinstance(e, ValidationError) and "minItems" in str(e.errors) \
+                    and set_dups_below_min(c.u, c.t, data_real(c.data), al) and R.known_match("set-duplicates-min-items"):
+                return
             R.violation(f"serialize / re-deserialize of an accepted datum raised {type(e).__name__}: {e}", c.to_json())
             return
         R.count("dual_round_trips")
@@ -278,6 +408,9 @@ def run(tier):
         real = data_real(c.data)
         if not has_set(c.t, c.u) and not (c.opts["additional_properties"] and not typed_dict_only(c)):
             if not covers(d2, real):
+                if c.opts["additional_properties"] and shadows_field(c.u, c.t, real, al) \
+                        and R.known_match("typeddict-extra-shadows-field"):
+                    return
                 R.violation(f"serialize(T, deserialize(T, d)) = {d2!r} is not d completed with defaults", dict(c.to_json(), again=repr(d2)))
 
     def typed_dict_only(c):
@@ -286,6 +419,7 @@ def run(tier):
     PD.hooks.append(dual)
     PD.run()
     typeddict_shadow_probe(R)
+    set_duplicates_probe(R)
     from harness import probes
     probes.late_conversion_round_trip(R)
     probes.flatten_probe(R)
@@ -342,6 +476,28 @@ def typeddict_shadow_probe(R):
     if not R.known_match("typeddict-extra-shadows-field"):
         R.violation(f"deserialize keeps the additional property 'b' in place of the field b: {v!r}; serialize gives {out!r}, "
                     "which does not deserialize back", dict(data={"p_a": "abc", "p_b": 2, "b": ""}))
+
+
+def set_duplicates_probe(R):
+    """directed probe of KF-C05-set-duplicates-min-items"""
+    pyrun.ensure_repo_on_path()
+    from typing import Annotated, FrozenSet
+    from apischema import deserialize, serialize, schema, ValidationError
+    T = Annotated[FrozenSet[int], schema(min_items=2)]
+    R.count("set_duplicates_probe")
+    try:
+        v = deserialize(T, [1, 1])
+    except ValidationError:
+        return                      # duplicates rejected, or counted once: the datum is not accepted
+    out = serialize(T, v, check_type=False)
+    try:
+        if deserialize(T, out) == v:
+            return
+    except ValidationError:
+        pass
+    if not R.known_match("set-duplicates-min-items"):
+        R.violation(f"deserialize(Annotated[FrozenSet[int], schema(min_items=2)], [1, 1]) = {v!r}; serialize gives {out!r}, "
+                    "which does not deserialize back", dict(data=[1, 1]))
 
 
 def replay(data):
